@@ -2,7 +2,7 @@
 From Coq Require Import List Bool ZArith String.
 Import ListNotations.
 Require Import Nib.C17.AnteFacts Nib.C17.MsgTree Nib.C17.Model Nib.C17.Spec Nib.C17.Proofs Nib.C17.Property.
-Require Import Nib.Gen.C17Facts Nib.C17.Current.
+Require Import Nib.Gen.C17Facts Nib.C17.Current Nib.C17.IcaList.
 
 (** The commission decorator is installed in the non-EVM ante chain (every decorator of the chain runs
     before the message router), checks MsgCreateValidator.Commission.Rate and MsgEditValidator.CommissionRate
@@ -38,3 +38,16 @@ Proof.
   intros w s x. apply C17_no_tx_sets_rate_above_cap. apply C17_cfg_checker_sound. exact C17_current_cfg_ok.
 Qed.
 Print Assumptions C17_no_tx_sets_rate_above_cap_on_current_tree.
+
+(** With an ICA host whose allow-list passes [list_safe] the hypothesis [ica_safe] is discharged: the cap then
+    holds on the current tree for every history whose passed proposals are trusted.  (The allow-lists found in
+    the upgrade handlers of the current tree are printed in Gen/C17Facts.v [ica_allow_lists]; the one installed
+    by upgrade v1.3.0 contains authz.MsgExec and does NOT pass — open finding, see README.) *)
+Theorem C17_holds_for_current_tree_with_safe_ica_list :
+  forall (w : world) (l : list string) (s0 : st) (h : list event),
+    list_safe l = true -> cap_ok s0 -> gov_trusted current_cfg h ->
+    cap_ok (run_history current_cfg (world_with_ica w l) s0 h).
+Proof.
+  intros w l s0 h Hl. apply C17_holds_for_current_tree. apply C17_ica_allow_list_safe. exact Hl.
+Qed.
+Print Assumptions C17_holds_for_current_tree_with_safe_ica_list.
